@@ -2,6 +2,7 @@ import QmcProofs.Rvb
 import QmcProofs.BondContainer
 import QmcProofs.RvbBalance
 import QmcProofs.RvbMove
+import QmcProofs.RvbSweep
 
 /-!
 # C03 — the RVB cluster update preserves the thermal distribution (partial by nature)
@@ -322,6 +323,22 @@ theorem acceptProb_zero_of_inner_zero (P : Problem) (ks : List Nat) (eps : Rat)
       · simp [ih e]
   unfold acceptProb rawMult
   rw [this]; simp [minR]
+
+/-- the value the code's sweep accumulates (in the code's order of multiplications) is the
+multiplier of the segment abstraction extracted from the same configuration and region, whenever
+the sweep runs to the end … -/
+theorem codeMult_eq_abstraction (E : Ising) (c : Config) (R : Region) (h : (rvbCodeMult E c R).2 = false) :
+    (rvbCodeMult E c R).1 = rvbRawMult E c R := rvbCodeMult_eq E c R h
+
+/-- … and exactly 0 (proposal rejected outright) when the running product underflows
+`f64::EPSILON` and the sweep is abandoned (F19 fix). -/
+theorem codeMult_zero_of_abandoned (E : Ising) (c : Config) (R : Region) (h : (rvbCodeMult E c R).2 = true) :
+    (rvbCodeMult E c R).1 = 0 := by
+  unfold rvbCodeMult at h ⊢
+  simp only at h ⊢
+  split
+  · rfl
+  · rename_i hb; simp [hb] at h
 
 /-- non-vacuity: two segments (a frustrated pair of boundary bonds with unequal |J|, then a
 single boundary bond), three rotatable operators, one enclosed operator; both sides of the
